@@ -17,7 +17,7 @@ import (
 func init() {
 	Register(&Prop{
 		ID:   "C15",
-		Expl: "Decides the recovery structure: (R1) every action with an irreversible effect (opening broadcast, the three spends, the two payment calls) is either used only by FailOnrecover states or, on every static call chain from the action to the effect call, some call of the chain is dominated by a guard on a persisted SwapData field that is assigned after the effect (in the same function or further down the chain), and whose 'already done' branch cannot reach the effect or a failure; (R2) every state whose action builds a request/agreement message is FailOnrecover and sending states send the persisted NextMessage bytes; (R3) IsFinished is true exactly for the terminal states of all tables (decided by evaluating IsFinished's control flow for every state constant) and Recover is called from RecoverSwaps (incl. the goroutines and helpers it starts) only when IsFinished is false; (R4) terminal states have no events (nothing runs after cancel); (R5) RecoverSwaps binds (type, role) to the same table as the constructors, for all four combinations; (R6) every FailOnrecover state accepts Event_ActionFailed.",
+		Expl: "Decides the recovery structure: (R1) every action with an irreversible effect (opening broadcast, the three spends, the two payment calls) is either used only by FailOnrecover states or, on every static call chain from the action to the effect call, some call of the chain is dominated by a guard on a persisted SwapData field that is assigned after the effect (in the same function or further down the chain), and whose 'already done' branch cannot reach the effect or a failure; (R2) every state whose action builds a request/agreement message is FailOnrecover and sending states send the persisted NextMessage bytes; (R3) IsFinished is true exactly for the terminal states of all tables (decided by evaluating IsFinished's control flow for every state constant) and Recover is called from RecoverSwaps (incl. the goroutines and helpers it starts) only when IsFinished is false; (R4) terminal states have no events (nothing runs after cancel); (R5) RecoverSwaps binds (type, role) to the same table as the constructors, for all four combinations; (R6) every FailOnrecover state accepts Event_ActionFailed; (R7) in SendEvent and every other function of package swap that both moves the machine to a new state (store to SwapStateMachine.Current, directly or through helpers) and runs Action.Execute, no Store.UpdateData (directly or through helpers) can execute after the transition and before the Execute of the new state: the guards of R1 are assigned only after the effect, so a record may say 'state S' only once the action of S has returned at least once - otherwise a crash inside the action re-runs it with the guard unset.",
 		NotD: "Duplicate suppression inside the Lightning node or wallet; behaviour of a payment that is in flight during the crash.",
 		Run:  runC15,
 	})
@@ -40,6 +40,7 @@ func runC15(c *an.Check) {
 	c.Rule("C15.R4", "terminal states have no events; cancelled is terminal")
 	c.Rule("C15.R5", "RecoverSwaps uses the constructors' (type, role) -> table binding for all four combinations")
 	c.Rule("C15.R6", "every FailOnrecover state accepts Event_ActionFailed")
+	c.Rule("C15.R7", "no store write lies between the transition to a state and the run of that state's action: the idempotence guards are set after the effect, so 'the record says state S' must imply 'the action of S has completed once' (a write-ahead of the state itself is not the repair of the C07.R6 crash window; an intent record distinct from Current would be)")
 	if !needEffects(c, fxOpenTx, fxPreimageSpend, fxCsvSpend, fxCoopSpend, fxPay, fxPayViaChannel, fxSendMessage) {
 		return
 	}
@@ -378,6 +379,9 @@ func runC15(c *an.Check) {
 		}
 	}
 
+	// ---- R7 ------------------------------------------------------------------
+	c15NoWriteBeforeAction(c)
+
 	// ---- R6 ------------------------------------------------------------------
 	for _, t := range ts {
 		for _, s := range t.T.Order {
@@ -389,6 +393,133 @@ func runC15(c *an.Check) {
 			c.Decide(ok, "C15.R6", t.key(s)+" accepts ActionFailed", t.pos(c, s), "FailOnrecover state can be failed", "FailOnrecover state does not accept Event_ActionFailed: Recover's SendEvent is rejected and the swap stays active forever")
 		}
 	}
+}
+
+// c15NoWriteBeforeAction: R7. Anchors as in C07.R6 (transition = store to
+// SwapStateMachine.Current, Action.Execute, Store.UpdateData; each directly or
+// through the effect summary of an in-module callee).
+func c15NoWriteBeforeAction(c *an.Check) {
+	w := c.W
+	se := w.Func("swap", "(*SwapStateMachine).SendEvent")
+	if se == nil {
+		c.Anchor("(*SwapStateMachine).SendEvent does not resolve")
+		return
+	}
+	// what a function does, summarised
+	kind := func(g *ssa.Function) (isExec, isTrans, isUpd bool) {
+		if g == nil || !w.InModule(g) || g.Blocks == nil {
+			return
+		}
+		sum := w.Summary(g)
+		return sum.HasEffect(fxActionExecute), c15FnStores(w, g, "SwapStateMachine.Current"), sum.HasEffect(fxStoreUpdate)
+	}
+	analysed := 0
+	for _, fn := range prodFuncs(w) {
+		if w.FnRel(fn) != "swap" || isDummy(w, fn) {
+			continue
+		}
+		var execs, trans, upd, opaque []ssa.Instruction
+		for _, b := range fn.Blocks {
+			for _, in := range b.Instrs {
+				if st, ok := in.(*ssa.Store); ok {
+					if fa, ok := st.Addr.(*ssa.FieldAddr); ok && an.FieldName(fa.X.Type(), fa.Field) == "SwapStateMachine.Current" {
+						trans = append(trans, in)
+					}
+					continue
+				}
+				call, ok := in.(ssa.CallInstruction)
+				if !ok {
+					continue
+				}
+				if _, isGo := call.(*ssa.Go); isGo {
+					continue
+				}
+				ci := w.Info(call)
+				switch {
+				case ci.Name == fxActionExecute:
+					execs = append(execs, in)
+				case ci.Name == fxStoreUpdate:
+					upd = append(upd, in)
+				case ci.Static != nil:
+					if ci.Static == fn {
+						continue
+					}
+					e, t, u := kind(ci.Static)
+					if e && t {
+						continue // transition and action both inside the callee: analysed there
+					}
+					if e {
+						execs = append(execs, in)
+					}
+					if t {
+						trans = append(trans, in)
+					}
+					if u && !e {
+						upd = append(upd, in)
+					}
+				case strings.HasPrefix(ci.Name, "dyn:"):
+					opaque = append(opaque, in)
+				case ci.Iface != nil && c15RelOf(w, ci.PkgPath) == "swap" && ci.Iface.Obj().Name() != "Store" && ci.Iface.Obj().Name() != "Action":
+					// an in-module service interface: its implementations are not looked into
+					opaque = append(opaque, in)
+				}
+			}
+		}
+		if len(execs) == 0 || len(trans) == 0 {
+			continue
+		}
+		analysed++
+		between := func(x ssa.Instruction) bool {
+			afterTr, beforeEx := false, false
+			for _, tr := range trans {
+				if tr != x && pathAvoiding(tr, x, execs) {
+					afterTr = true
+				}
+			}
+			for _, ex := range execs {
+				if ex != x && pathAvoiding(x, ex, trans) {
+					beforeEx = true
+				}
+			}
+			return afterTr && beforeEx
+		}
+		cons := w.FuncName(fn) + " write between transition and Execute"
+		var bad, unk []string
+		for _, u := range upd {
+			if between(u) {
+				bad = append(bad, strings.TrimPrefix(w.Info(u.(ssa.CallInstruction)).Name, "iface:")+" at "+w.Pos(u.Pos()))
+			}
+		}
+		for _, o := range opaque {
+			if between(o) {
+				unk = append(unk, w.Info(o.(ssa.CallInstruction)).Name+" at "+w.Pos(o.Pos()))
+			}
+		}
+		switch {
+		case len(bad) > 0:
+			c.Bad("C15.R7", cons, w.Pos(c15FirstBetween(upd, between).Pos()),
+				"the record is written after the machine moved to the new state and before that state's action runs ("+strings.Join(bad, "; ")+"): a crash inside the action - e.g. after the wallet broadcast, before the post-action write - leaves the record in the new state with its idempotence guard (OpeningTxBroadcasted, ClaimTxId, ClaimPreimage) still unset; the state is recoverable, Recover re-runs the action and the irreversible effect happens twice. Persisting the state ahead of the action is not the repair of the crash window of C07.R6; an intent record distinct from Current would be")
+		case len(unk) > 0:
+			c.Unknown("C15.R7", cons, w.Pos(fn.Pos()), "between the transition and the Execute call lies a call whose effect on the store is not interpreted: "+strings.Join(unk, "; "))
+		default:
+			c.OK("C15.R7", cons, w.Pos(fn.Pos()), "nothing is persisted between the transition and the run of the new state's action: a stored state implies its action has returned once")
+		}
+	}
+	c.AtLeast("C15.R7", "functions that both transition and run Action.Execute", analysed, 1)
+}
+
+func c15RelOf(w *an.World, pkgPath string) string {
+	r, _ := w.Rel(pkgPath)
+	return r
+}
+
+func c15FirstBetween(upd []ssa.Instruction, between func(ssa.Instruction) bool) ssa.Instruction {
+	for _, u := range upd {
+		if between(u) {
+			return u
+		}
+	}
+	return upd[0]
 }
 
 // c15FinishedWitness: in some function of the chain IsFinished is called on the
